@@ -467,9 +467,11 @@ func runC04Concurrent(r *mon.Run, stream uint64) {
 }
 
 func runC04(r *mon.Run, replay string) {
-	r.Rule("generated fork-tree histories (incl. rolled-back reorgs) with a population of subscribers (start from nothing; chunk sizes 1,2,3,7,1000,PRNG; some polling rarely so that they sit on abandoned branches); every UpdatesSince result is checked for length <= max, reverts-first parent-by-parent contiguity, applies climbing one height, pure states; diffs and proof updates are folded into a shadow ledger compared with the pure ledger whenever the subscriber is at the tip; ceil(path/max) polls must reach the tip; OnReorg listeners (with churn) must be invoked exactly when the tip changed, with the new tip; concurrent mode: pollers against a submitter under -race, reached-tip polls checked by porcupine against a register model of the tip")
+	r.Rule("generated fork-tree histories (incl. rolled-back reorgs) with a population of subscribers (start from nothing; chunk sizes 1,2,3,7,1000,PRNG; some polling rarely so that they sit on abandoned branches); every UpdatesSince result is checked for length <= max, reverts-first parent-by-parent contiguity, applies climbing one height, pure states; diffs and proof updates are folded into a shadow ledger compared with the pure ledger whenever the subscriber is at the tip; ceil(path/max) polls must reach the tip; OnReorg listeners (with churn) must be invoked exactly when the tip changed, with the new tip, also for tip changes that happen while a notification round is in progress (a listener submitting the next block from its callback; another goroutine submitting while a listener is busy); concurrent mode: pollers against a submitter under -race, reached-tip polls checked by porcupine against a register model of the tip")
 	if st, ok := replayStream(replay); ok {
-		if st >= 49500 {
+		if st >= 49800 {
+			runC04Nested(r, st)
+		} else if st >= 49500 {
 			runC04Deep(r, st)
 		} else if st >= 49000 {
 			runC04Concurrent(r, st)
@@ -506,6 +508,9 @@ func runC04(r *mon.Run, replay string) {
 		}(i)
 	}
 	wg.Wait()
+	parallel(r.Pick(80, 800), func(i int) { runC04Nested(r, uint64(49800+i)) })
+	r.Floor("tip_changes_during_a_notification_round:listener-submits-next-block", 50)
+	r.Floor("tip_changes_during_a_notification_round:second-submitter-during-slow-listener", 50)
 	r.Floor("polls_returning_more_than_64_updates", 50)
 	r.Floor("applied_blocks_redelivered_prevalidated", 20)
 	r.Floor("polls_reverting_more_than_64_blocks", 5)
